@@ -58,7 +58,7 @@ var stepLogRe = regexp.MustCompile(`^([A-Za-z0-9_]+)\.\d{8}\.[0-9:.]+\.[0-9a-f]+
 // pathClass maps a path of the scenario to a name that is the same in every
 // member: no scratch directory, no DAG name, no time stamp, no request id.
 func (sc *scene) pathClass(p string) string {
-	if p == sc.sock {
+	if p == sc.sock || sc.isOwnSocket(p) {
 		return "sock"
 	}
 	if !strings.HasPrefix(p, sc.inst+"/") {
@@ -100,6 +100,14 @@ func (sc *scene) pathClass(p string) string {
 	}
 	return "other"
 }
+
+// isOwnSocket: a status socket that carries this scene's (unique) DAG name, whatever location was hashed into it.
+func (sc *scene) isOwnSocket(p string) bool {
+	pre, suf := "/tmp/@blackdagger-"+sc.name+"-", ".sock"
+	return strings.HasPrefix(p, pre) && strings.HasSuffix(p, suf) && md5Only.MatchString(p[len(pre):len(p)-len(suf)])
+}
+
+var md5Only = regexp.MustCompile(`^[0-9a-f]{32}$`)
 
 func (sc *scene) classify(c *Call) {
 	kind := c.Name
